@@ -4,6 +4,9 @@
      B <ro|rw> <nkeys> keys.. <nops> bops..                   bops = F L N P S<hex>
      R <kind> <nseg> (rowid present nA A.. nops ops..)..      one runtime symbol re-opened row after row
      S <field> <variant> <nent> (id present nA A..).. <filter> a scan with a set filter through the cached symbol
+     M <ncur> (<kind> <fw> <present> <mask> <mask2> <nA> A.. <nB> B.. <nops> ops..).. <nsched> s..
+         several cursors alive at once, interleaved by the schedule (Cursor/Product.v); output: the comma separated views of all
+         cursors after every turn ("-" = not opened yet), model | specification
      I <kind> <fw> <flt> <skip> <limit> <nP> P.. <nC> C.. <nF> F.. <nops> ops..
          scanners layered over cursors (Cursor/Scanner.v): IterateIds / IterateValidIds of a root store (ids, vids), a child
          store (cids, cvids), an Extended() child store (xids, xvids), "<kind>0" = the entities bucket does not exist;
@@ -123,6 +126,37 @@ let () =
           | "rs-tags" | "rs-tagsraw" | "rs-grps" -> join (setsym_reuse_run tag (List.map (fun (b, _, ops) -> (b, ops)) segs))
           | _ -> "-" in
         print_endline (model ^ " | " ^ join spec)
+    | "M" :: ncur :: rest ->
+        (* several cursors alive at once (Cursor/Product.v): the views after every turn, model | specification *)
+        let rec curs k acc r = if k = 0 then (List.rev acc, r) else
+          match r with
+          | kind :: fw :: present :: _mask :: _mask2 :: r ->
+              let fw = fw = "1" and present = present = "1" in
+              let a, r = take_set r in
+              let b, r = take_set r in
+              let ops, r = take_ops r in
+              let bucket = if present then Some a else None in
+              let fuel = nat_of_int (List.length a + 2) in
+              let d =
+                match kind with
+                | "setsym" | "setsymraw" | "gs-tags" | "gs-grps" -> DSetsym bucket
+                | "tb-typed" | "tb-listdir" | "tb-list" | "related" | "links" | "rclinks" | "idxval" -> DHandout (fw, bucket)
+                | "tb-raw" | "tb-seekable" | "idxkey" -> DRawhand (fw, bucket)
+                | "raw" -> DBolt (fw, a)
+                | "typed" -> DTyped (fw, a)
+                | "ids" -> DIds (fuel, bucket)
+                | "tree" -> DTree (fw, a)
+                | "union" -> DUnion (fw, a, b)
+                | "filtered" -> DFiltered (fw, fuel, a, b)
+                | _ -> failwith ("unknown cursor kind " ^ kind) in
+              curs (k - 1) ((d, List.map parse_op ops) :: acc) r
+          | _ -> failwith "short cursor" in
+        let progs, rest = curs (int_of_string ncur) [] rest in
+        let sched, _ = take_ops rest in
+        let sched = List.map (fun x -> nat_of_int (int_of_string x)) sched in
+        let view v = String.concat "," (List.map (function None -> "-" | Some o -> obs_str o) v) in
+        let views l = String.concat " " (List.map view l) in
+        print_endline (views (multi_run tag progs sched) ^ " | " ^ views (multi_spec progs sched))
     | "S" :: field :: _variant :: nent :: rest ->
         let rec rows k acc r = if k = 0 then (List.rev acc, r) else
           let (id, bucket, _), r = take_row r in rows (k - 1) ((id, bucket) :: acc) r in
